@@ -9,7 +9,7 @@
 
 enum { IN_TEXT, IN_RANDOM, IN_EMPTY };
 // script steps: action + cumulative input offset in units of 1/4 of the input (q=4 -> all input)
-enum { A_RUN = 'R', A_FLUSH = 'F', A_BARRIER = 'B', A_FINISH = 'X', A_UPDATE_OK = 'U', A_UPDATE_BAD = 'u', A_REINIT_SAME = 'S', A_REINIT_DIFF = 'D', A_REINIT_BIGGER_BLOCKS = 'G', A_OFFER = 'P', A_UPDATE_ANY = 'V' };	// P: ONE lzma_code(LZMA_RUN) call offering everything up to the offset with one more byte of output space; V: filters_update whose outcome depends on whether a Block is open
+enum { A_RUN = 'R', A_FLUSH = 'F', A_BARRIER = 'B', A_FINISH = 'X', A_UPDATE_OK = 'U', A_UPDATE_BAD = 'u', A_REINIT_SAME = 'S', A_REINIT_DIFF = 'D', A_REINIT_BIGGER_BLOCKS = 'G', A_OFFER = 'P', A_UPDATE_ANY = 'V', A_FINISH_WORKER_ERROR = 'E' };	/* E: the chain (LZMA1) is accepted by lzma_stream_encoder_mt() but refused when a worker builds its Block Header: FINISH must return that error, and return it again */	// P: ONE lzma_code(LZMA_RUN) call offering everything up to the offset with one more byte of output space; V: filters_update whose outcome depends on whether a Block is open
 typedef struct { const char *script; int input, plen, bsz, threads, timeout, outchunk, inchunk, early; int bp, bt, bs; int tier; } row;
 // script syntax: pairs <action><quarter>, e.g. "R2X4" = RUN up to half the input, then FINISH with the rest.
 static const row ROWS[] = {
@@ -56,6 +56,10 @@ static const row ROWS[] = {
 	{ "R2G0X4",      IN_TEXT,    8,   2,  2,  0, 0,  0, 0,    1, 0, 0, 0 },	// re-init, same thread count, three times the block size (input buffers must be re-made)
 	{ "X4G0X4",      IN_RANDOM,  8,   2,  2,  0, 0,  0, 0,    0, 0, 0, 0 },
 	{ "X4G0X4",      IN_RANDOM,  12,  2,  2,  0, 0,  0, 0,    1, 0, 0, 1 },
+	{ "E4",          IN_TEXT,    8,   4,  2,  0, 0,  0, 0,    2, 0, 0, 0 },	// every worker fails: the error must reach the caller (no wait for output that never comes)
+	{ "E4",          IN_TEXT,    12,  4,  3,  0, 0,  0, 0,    1, 0, 0, 0 },
+	{ "E4",          IN_TEXT,    8,   4,  2,  1, 1,  0, 0,    1, 1, 0, 0 },
+	{ "E4",          IN_TEXT,    4,   4,  1,  0, 0,  2, 0,    2, 0, 0, 0 },
 	{ "X4",          IN_TEXT,    8,   4,  2,  0, 0,  0, -1,   1, 0, 0, 0 },	// early lzma_end after call k for every k
 	{ "X4",          IN_TEXT,    8,   4,  2,  0, 1,  0, -1,   1, 0, 0, 0 },
 	{ "R2F2X4",      IN_TEXT,    8,   4,  2,  1, 3,  3, -1,   1, 1, 0, 0 },
@@ -131,6 +135,9 @@ static void run_script(obs *o, int threads, int probe) {
 		case A_FLUSH: r = step(&s, upto, LZMA_FULL_FLUSH, o, probe); if (r == LZMA_STREAM_END) { if (!prefix_decodes(s.total_out, upto, o)) BAD(o, "after FULL_FLUSH the output so far does not decode to the %zu input bytes given", upto); r = LZMA_OK; } else if (r != 77) BAD(o, "FULL_FLUSH returned %d", r); break;
 		case A_BARRIER: r = step(&s, upto, LZMA_FULL_BARRIER, o, probe); if (r == LZMA_STREAM_END) r = LZMA_OK; else if (r != 77) BAD(o, "FULL_BARRIER returned %d", r); break;
 		case A_FINISH: r = step(&s, upto, LZMA_FINISH, o, probe); break;
+		case A_FINISH_WORKER_ERROR: { r = step(&s, upto, LZMA_FINISH, o, probe); if (r == 77) break;
+			if (r == LZMA_OK || r == LZMA_STREAM_END || r == LZMA_BUF_ERROR || r >= 90) { BAD(o, "a worker failed but lzma_code(LZMA_FINISH) returned %d", r); break; }
+			lzma_ret again = lzma_code(&s, LZMA_FINISH); calls++; if (again != r) BAD(o, "worker error %d was reported once, the next call returned %d", r, again); r = 55; break; }
 		case A_UPDATE_OK: { lzma_ret u = lzma_filters_update(&s, flt2); if (u != LZMA_OK) BAD(o, "filters_update between Blocks refused (%d)", u); break; }
 		case A_OFFER: { size_t fed = s.total_in + s.avail_in; if (s.avail_in == 0) s.next_in = plain + fed; if (upto > fed) s.avail_in += upto - fed; { size_t g = ocap == 0 ? 12 : 1; if (ocap + g <= sizeof comp) { s.avail_out += g; ocap += g; } }	/* exactly the Stream Header on the first call: the call returns while the input of later Blocks is still pending */
 			r = lzma_code(&s, LZMA_RUN); calls++; if (r != LZMA_OK) BAD(o, "single LZMA_RUN call returned %d", r); break; }
@@ -144,7 +151,7 @@ static void run_script(obs *o, int threads, int probe) {
 			if (!enc_init(&s, nt)) { r = 98; BAD(o, "re-init failed"); break; }
 			ocap = 0; s.next_out = comp; s.avail_out = 0; s.next_in = plain; s.avail_in = 0; maxpo = 0; r = LZMA_OK; break; }
 		}
-		if (r == 77 || o->bad || (r != LZMA_OK && p[0] != A_FINISH)) break;
+		if (r == 77 || r == 55 || o->bad || (r != LZMA_OK && p[0] != A_FINISH)) break;
 	}
 	o->r = r; o->tout = s.total_out; o->h = h_fnv(comp, s.total_out, 0); o->calls = calls;
 	if (r == LZMA_STREAM_END && probe) { uint64_t pi, po; lzma_get_progress(&s, &pi, &po);
@@ -156,7 +163,7 @@ static void run_script(obs *o, int threads, int probe) {
 
 static long n_exec; static h_set obsset;
 static void validate(obs *o, const char *what) {
-	if (o->r == 77) return;
+	if (o->r == 77 || o->r == 55) return;	// ended early on purpose / the expected worker error was reported
 	if (o->r != LZMA_STREAM_END) { BAD(o, "%s: final status %d", what, o->r); return; }
 	static unsigned char out2[4096]; size_t ol = 0; ref_xz_info info;
 	int rr = ref_xz_decode(comp, o->tout, out2, sizeof out2, &ol, &info);
@@ -176,7 +183,7 @@ static int quiet_check;
 static int check_one(void) {
 	if (!quiet_check) n_exec++;
 	validate(&last, "mt");
-	if (!last.bad && last.r != 77 && last.chg_dyn == -2 && (last.tout != base_len || memcmp(comp, base_out, base_len))) BAD(&last, "bytes differ from the threads=1 / default-schedule output (%zu vs %zu bytes)", last.tout, base_len);
+	if (!last.bad && last.r != 77 && last.r != 55 && last.chg_dyn == -2 && (last.tout != base_len || memcmp(comp, base_out, base_len))) BAD(&last, "bytes differ from the threads=1 / default-schedule output (%zu vs %zu bytes)", last.tout, base_len);
 	if (!last.bad && last.leaked) BAD(&last, "allocator balance: %ld blocks live after lzma_end", last.leaked);
 	uint64_t k = h_fnv(&last.r, sizeof last.r, 0); k = h_fnv(&last.h, 8, k); h_set_add(&obsset, k);
 	if (last.bad && quiet_check) return 1;
@@ -209,7 +216,7 @@ int main(int argc, char **argv) {
 	int ri = atoi(argv[2]); if (ri < 0 || ri >= NROWS) return 2; R = &ROWS[ri]; row_name(R, ri);
 	plen = R->plen; uint32_t x = 99; for (size_t i = 0; i < plen; i++) { x = x * 1664525u + 1013904223u; plain[i] = R->input == IN_RANDOM ? (unsigned char)(x >> 24) : "abcab"[i % 5]; }
 	lzma_lzma_preset(&opt, 0); opt.dict_size = 4096; opt2 = opt; opt2.lc = 0; opt2.lp = 1;
-	flt[0] = (lzma_filter){ LZMA_FILTER_LZMA2, &opt }; flt[1].id = LZMA_VLI_UNKNOWN;
+	flt[0] = (lzma_filter){ strchr(R->script, A_FINISH_WORKER_ERROR) ? LZMA_FILTER_LZMA1 : LZMA_FILTER_LZMA2, &opt }; flt[1].id = LZMA_VLI_UNKNOWN;
 	flt2[0] = (lzma_filter){ LZMA_FILTER_DELTA, &odelta }; flt2[1] = (lzma_filter){ LZMA_FILTER_LZMA2, &opt2 }; flt2[2].id = LZMA_VLI_UNKNOWN;
 	fltbad[0] = (lzma_filter){ LZMA_FILTER_LZMA2, &opt }; fltbad[1] = (lzma_filter){ LZMA_FILTER_DELTA, &odelta }; fltbad[2].id = LZMA_VLI_UNKNOWN;
 	vs_allow_timeouts = R->timeout != 0;
